@@ -216,6 +216,9 @@ type harness struct {
 	direct []hx.DirectViolation
 	vxs    map[[2]bool]*vaxis.Vaxis
 	fcs    map[[2]bool]*hx.FakeConsole
+	// legacy: VAXIS_FORCE_LEGACY_SGR was set when a Vaxis was created in this process
+	// (applyQuirks then rewrites the package-level format strings, for good)
+	legacy bool
 }
 
 const rowLen = 12
@@ -242,7 +245,7 @@ func (h *harness) addCodec(cells []vaxis.Cell, tags ...string) {
 		return
 	}
 	var encE, encS string
-	var parsed, styled, termCells []vaxis.Cell
+	var parsed, styled, styledE, termCells []vaxis.Cell
 	var finParse, finTerm vaxis.Style
 	panicked, msg := hx.Catch(func() {
 		encE = vaxis.EncodeCells(cells)
@@ -250,12 +253,13 @@ func (h *harness) addCodec(cells []vaxis.Cell, tags ...string) {
 		parsed = vaxis.ParseStyledString(encE)
 		if !links {
 			styled = vx0.NewStyledString(encS, vaxis.Style{}).Cells
+			styledE = vx0.NewStyledString(encE, vaxis.Style{}).Cells
 		}
 		_, finParse = feed(encE, vaxis.VerifC18ParseSGR)
 		termCells, finTerm = feed(encE, term.VerifC18SGR)
 	})
-	js := map[string]interface{}{"cells": jsCells(cells), "encodeCells": encE, "encode": encS,
-		"parsed": jsCells(parsed), "styled": jsCells(styled), "term": jsCells(termCells),
+	js := map[string]interface{}{"legacySGR": h.legacy, "cells": jsCells(cells), "encodeCells": encE, "encode": encS,
+		"parsed": jsCells(parsed), "styled": jsCells(styled), "styledOfEncodeCells": jsCells(styledE), "term": jsCells(termCells),
 		"finParse": jsS(finParse), "finTerm": jsS(finTerm)}
 	if panicked {
 		h.direct = append(h.direct, hx.DirectViolation{Class: "codec-panic", Case: js, What: "a codec function panicked: " + msg})
@@ -266,10 +270,10 @@ func (h *harness) addCodec(cells []vaxis.Cell, tags ...string) {
 		encSTerm = hx.Some(hx.Runes(encS))
 	}
 	if links {
-		styled = parsed // not observed (the model ignores it)
+		styled, styledE = parsed, parsed // not observed (the model ignores them)
 	}
-	obs := fmt.Sprintf("(mkCodecW %s %s %s %s %s %s %s)", hx.Runes(encE), encSTerm,
-		cellsTerm(parsed, pcellTerm), optCells(styled, parsed), optCells(termCells, parsed),
+	obs := fmt.Sprintf("(mkCodecW %s %s %s %s %s %s %s %s)", hx.Runes(encE), encSTerm,
+		cellsTerm(parsed, pcellTerm), optCells(styled, parsed), optCells(styledE, parsed), optCells(termCells, parsed),
 		penTerm(finParse), penTerm(finTerm))
 	if !wf {
 		tags = append(tags, "not-wellformed")
@@ -277,7 +281,10 @@ func (h *harness) addCodec(cells []vaxis.Cell, tags ...string) {
 	if links {
 		tags = append(tags, "hyperlink")
 	}
-	h.codec.Add(hx.Tuple(cellsTerm(cells, cellTerm), obs), js, len(cells) >= 2 && wf, tags...)
+	if h.legacy {
+		tags = append(tags, "legacy-sgr")
+	}
+	h.codec.Add(hx.Tuple(hx.Bool(h.legacy), cellsTerm(cells, cellTerm), obs), js, len(cells) >= 2 && wf, tags...)
 }
 
 func (h *harness) vaxisFor(rgb, smulx bool) (*vaxis.Vaxis, *hx.FakeConsole) {
@@ -318,7 +325,7 @@ func (h *harness) addRender(rgb, smulx bool, cells []vaxis.Cell, tags ...string)
 	const cup = "\x1b[1;1H"
 	a := strings.Index(frame, cup)
 	b := strings.LastIndex(frame, "\x1b[m")
-	js := map[string]interface{}{"rgb": rgb, "styledUnderlines": smulx, "cells": jsCells(cells)}
+	js := map[string]interface{}{"legacySGR": h.legacy, "rgb": rgb, "styledUnderlines": smulx, "cells": jsCells(cells)}
 	if a < 0 || b < a {
 		js["frame"] = frame
 		h.direct = append(h.direct, hx.DirectViolation{Class: "render-frame", Case: js, What: "frame has no CUP 1;1 ... SGR reset"})
@@ -341,7 +348,10 @@ func (h *harness) addRender(rgb, smulx bool, cells []vaxis.Cell, tags ...string)
 	obs := fmt.Sprintf("(mkRenderW %s %s %s %s %s)", hx.Runes(out), cellsTerm(parsed, pcellTerm),
 		optCells(styled, parsed), optCells(termCells, parsed), penTerm(finTerm))
 	tags = append(tags, fmt.Sprintf("rgb=%v,smulx=%v", rgb, smulx))
-	h.render.Add(hx.Tuple(hx.Tuple(hx.Bool(rgb), hx.Bool(smulx)), cellsTerm(cells, pcellTerm), obs), js, wf, tags...)
+	if h.legacy {
+		tags = append(tags, "legacy-sgr")
+	}
+	h.render.Add(hx.Tuple(hx.Tuple(hx.Bool(h.legacy), hx.Bool(rgb), hx.Bool(smulx)), cellsTerm(cells, pcellTerm), obs), js, wf, tags...)
 }
 
 func (h *harness) addSGR(start vaxis.Style, ps [][]int, tags ...string) {
@@ -414,6 +424,8 @@ func main() {
 		sgr:    hx.NewStream("sgr", "model.Sgr", "sgr_case", "c18_sgr_mismatches", "c18_sgr_violations"),
 		vxs:    map[[2]bool]*vaxis.Vaxis{}, fcs: map[[2]bool]*hx.FakeConsole{}}
 	h.codec.ShardMax, h.render.ShardMax, h.sgr.ShardMax = 100, 100, 400
+	h.codec.Known, h.codec.KnownClass = "c18_codec_known", "legacy-sgr-newstyledstring"
+	h.render.Known, h.render.KnownClass = "c18_render_known", "legacy-sgr-newstyledstring"
 	thorough := cfg.Thorough()
 	allCaps := [][2]bool{{true, true}, {true, false}, {false, true}, {false, false}}
 
@@ -422,7 +434,7 @@ func main() {
 	// The other fields cycle through all colour classes and underline styles.
 	reps := 1
 	if thorough {
-		reps = 3
+		reps = 2 // second pass: the other fields vary as well
 	}
 	pairCount, rowNo := 0, 0
 	for rep := 0; rep < reps; rep++ {
@@ -452,7 +464,7 @@ func main() {
 				h.addCodec(cells, "attr-pairs")
 				// render sees the same rows (capabilities in rotation, all four in the thorough tier)
 				for ci, c := range allCaps {
-					if thorough || ci == rowNo%4 {
+					if (thorough && rep == 0) || ci == rowNo%4 {
 						h.addRender(c[0], c[1], append([]vaxis.Cell(nil), cells...), "attr-pairs")
 					}
 				}
@@ -476,101 +488,107 @@ func main() {
 	if thorough {
 		nB = 12
 	}
-	for rep := 0; rep < nB; rep++ {
-		for slot := 0; slot < 4; slot++ {
-			n := 5
-			if slot == 3 {
-				n = 6
-			}
-			var seq []int // a walk through all ordered pairs (x,y): x y x for y >= x
-			for x := 0; x < n; x++ {
-				for y := x; y < n; y++ {
-					seq = append(seq, x, y)
+	phaseB := func(nB int) {
+		for rep := 0; rep < nB; rep++ {
+			for slot := 0; slot < 4; slot++ {
+				n := 5
+				if slot == 3 {
+					n = 6
 				}
-				seq = append(seq, x)
-			}
-			base := g.style()
-			if rep%2 == 0 {
-				base = vaxis.Style{}
-			}
-			for off := 0; off < len(seq)-1; off += rowLen - 1 {
-				cells := make([]vaxis.Cell, 0, rowLen)
-				for i := off; i < off+rowLen; i++ {
-					st := base
-					v := seq[i%len(seq)]
-					switch slot {
-					case 0:
-						st.Foreground = g.colour(v)
-					case 1:
-						st.Background = g.colour(v)
-					case 2:
-						st.UnderlineColor = g.colour(v)
-					case 3:
-						st.UnderlineStyle = vaxis.UnderlineStyle(v)
+				var seq []int // a walk through all ordered pairs (x,y): x y x for y >= x
+				for x := 0; x < n; x++ {
+					for y := x; y < n; y++ {
+						seq = append(seq, x, y)
 					}
-					cells = append(cells, cellOf(g.grapheme(true), st))
+					seq = append(seq, x)
 				}
-				tag := []string{"fg-classes", "bg-classes", "ul-classes", "uls-pairs"}[slot]
-				h.addCodec(cells, tag)
-				for _, c := range allCaps {
-					h.addRender(c[0], c[1], append([]vaxis.Cell(nil), cells...), tag)
+				base := g.style()
+				if rep%2 == 0 {
+					base = vaxis.Style{}
+				}
+				for off := 0; off < len(seq)-1; off += rowLen - 1 {
+					cells := make([]vaxis.Cell, 0, rowLen)
+					for i := off; i < off+rowLen; i++ {
+						st := base
+						v := seq[i%len(seq)]
+						switch slot {
+						case 0:
+							st.Foreground = g.colour(v)
+						case 1:
+							st.Background = g.colour(v)
+						case 2:
+							st.UnderlineColor = g.colour(v)
+						case 3:
+							st.UnderlineStyle = vaxis.UnderlineStyle(v)
+						}
+						cells = append(cells, cellOf(g.grapheme(true), st))
+					}
+					tag := []string{"fg-classes", "bg-classes", "ul-classes", "uls-pairs"}[slot]
+					h.addCodec(cells, tag)
+					for _, c := range allCaps {
+						h.addRender(c[0], c[1], append([]vaxis.Cell(nil), cells...), tag)
+					}
 				}
 			}
 		}
 	}
+	phaseB(nB)
 
 	// --- C. random cell sequences: lengths 0..12, non-ASCII graphemes, hyperlinks, near-identical neighbours
 	nC := 500
 	if thorough {
-		nC = 12000
+		nC = 6000
 	}
-	for i := 0; i < nC; i++ {
-		n := g.n(13)
-		if i < 4 {
-			n = i
+	phaseC := func(nC int) {
+		for i := 0; i < nC; i++ {
+			n := g.n(13)
+			if i < 4 {
+				n = i
+			}
+			cells := make([]vaxis.Cell, n)
+			prev := vaxis.Style{}
+			withLinks := g.n(8) == 0
+			for j := range cells {
+				var st vaxis.Style
+				switch g.n(4) {
+				case 0:
+					st = g.style()
+				case 1:
+					st = prev
+				default:
+					st = g.near(prev)
+				}
+				if withLinks && g.n(2) == 0 {
+					st.Hyperlink = []string{"", "https://example.com/a", "x"}[g.n(3)]
+					st.HyperlinkParams = []string{"", "id=1"}[g.n(2)]
+				} else {
+					st.Hyperlink, st.HyperlinkParams = "", ""
+				}
+				if g.n(6) == 0 {
+					st = vaxis.Style{}
+				}
+				cells[j] = cellOf(g.grapheme(false), st)
+				prev = st
+				prev.Hyperlink, prev.HyperlinkParams = "", ""
+			}
+			h.addCodec(cells, "random")
 		}
-		cells := make([]vaxis.Cell, n)
-		prev := vaxis.Style{}
-		withLinks := g.n(8) == 0
-		for j := range cells {
-			var st vaxis.Style
-			switch g.n(4) {
-			case 0:
-				st = g.style()
-			case 1:
-				st = prev
-			default:
-				st = g.near(prev)
+		for i := 0; i < nC/2; i++ {
+			cells := make([]vaxis.Cell, rowLen)
+			prev := vaxis.Style{}
+			for j := range cells {
+				st := g.near(prev)
+				if g.n(4) == 0 {
+					st = g.style()
+				}
+				cells[j] = cellOf(g.grapheme(true), st)
+				prev = st
 			}
-			if withLinks && g.n(2) == 0 {
-				st.Hyperlink = []string{"", "https://example.com/a", "x"}[g.n(3)]
-				st.HyperlinkParams = []string{"", "id=1"}[g.n(2)]
-			} else {
-				st.Hyperlink, st.HyperlinkParams = "", ""
-			}
-			if g.n(6) == 0 {
-				st = vaxis.Style{}
-			}
-			cells[j] = cellOf(g.grapheme(false), st)
-			prev = st
-			prev.Hyperlink, prev.HyperlinkParams = "", ""
+			c := allCaps[i%4]
+			h.addRender(c[0], c[1], cells, "random")
 		}
-		h.addCodec(cells, "random")
 	}
-	for i := 0; i < nC/2; i++ {
-		cells := make([]vaxis.Cell, rowLen)
-		prev := vaxis.Style{}
-		for j := range cells {
-			st := g.near(prev)
-			if g.n(4) == 0 {
-				st = g.style()
-			}
-			cells[j] = cellOf(g.grapheme(true), st)
-			prev = st
-		}
-		c := allCaps[i%4]
-		h.addRender(c[0], c[1], cells, "random")
-	}
+	phaseC(nC)
 
 	// --- D. values outside the named constants (no claim is made for them; the model must still agree)
 	odd := []vaxis.Style{{Foreground: 5}, {Background: vaxis.Color(1<<24 | 1<<25 | 7)}, {UnderlineStyle: 9},
@@ -664,14 +682,32 @@ func main() {
 		h.addSGR(starts(), ps, "random")
 	}
 
-	for _, vx := range h.vxs {
-		vx := vx
-		hx.WithTimeout(2e9, vx.Close)
+	closeAll := func() {
+		for k, vx := range h.vxs {
+			vx := vx
+			hx.WithTimeout(2e9, vx.Close)
+			delete(h.vxs, k)
+			delete(h.fcs, k)
+		}
 	}
+	closeAll()
+
+	// --- F. the legacy quirk, last because it cannot be undone in this process: from the next
+	// vaxis.New on, render and EncodeCells write 38;5;n / 38;2;r;g;b with semicolons
+	os.Setenv("VAXIS_FORCE_LEGACY_SGR", "1")
+	h.legacy = true
+	h.vaxisFor(true, true)
+	if probe := vaxis.EncodeCells([]vaxis.Cell{cellOf("a", vaxis.Style{Foreground: vaxis.IndexColor(100)})}); probe != "\x1b[38;5;100ma\x1b[m" {
+		panic(fmt.Sprintf("legacy quirk not active: %q", probe))
+	}
+	phaseB(2)
+	phaseC(nC / 4)
+	closeAll()
+
 	cfg.Write("C18", "codec: cell rows covering every ordered pair of the 128 attribute masks, every ordered pair of colour classes "+
 		"(default, 0-7, 8-15, 16-255, RGB) per colour slot and of underline styles, random cell lists (length 0-12, non-ASCII graphemes, hyperlinks), "+
 		"values outside the named constants; render: the same rows drawn by Vaxis.render under the 4 combinations of the rgb and styledUnderlines capabilities; "+
-		"sgr: the whole producer vocabulary, truncated/legacy/sub-param extended-colour forms, random param lists, lists with empty sub-lists. "+
+		"codec and render again (colour classes, random) with VAXIS_FORCE_LEGACY_SGR; sgr: the whole producer vocabulary, truncated/legacy/sub-param extended-colour forms, random param lists, lists with empty sub-lists. "+
 		"Non-trivial = at least one style transition between well-formed neighbouring cells (codec, render) / a non-empty list without empty sub-lists (sgr); distinct by the whole case",
 		[]*hx.Stream{h.codec, h.render, h.sgr},
 		map[string]interface{}{"attr_pair_transitions": pairCount}, h.direct)
